@@ -10,6 +10,7 @@ from .rules import c06 as R_c06
 from .rules import structs as R_st
 from .rules import formats as R_fm
 from .rules import c20 as R_c20
+from .rules import c18c19 as R_cc
 
 Q = ("quick", "thorough")
 T = ("thorough",)
@@ -260,6 +261,39 @@ PROPS = {
         level_note="Trusted: attribute names identify the file-size / memory-size fields (p_filesz/p_memsz, SizeOfRawData/VirtualSize, filesize/vmsize); one-level helper resolution (self.readsegment).",
         technique="must-use / must-flow (def-use) rules over the AST of the loaders",
         trusted_base=["field-name table SEGIMG in vstat/rules/formats.py"],
+        assumptions=[],
+    ),
+    "C18": dict(
+        title="Sweeps, blocks and control-flow graphs partition the code",
+        explanation=(
+            "Decides the sweep/block half structurally: (R-SWEEP) in lsweep.sequence the cursor is advanced exactly once between two "
+            "fetches, by the fetched instruction's length, and the instruction is yielded exactly once; the sweep API keeps no "
+            "state on self; (R-XFER) lsweep.iterblocks appends every swept instruction to the current block on every path, yields "
+            "every block it builds, flushes the tail, and clears the delay-slot flag when a block is closed; block.__getitem__ "
+            "records every instruction boundary; block.length/raw/support/address are derived from the instruction list only. "
+            "Does NOT decide disjointness/coverage of cfg.graph's support for all insertion orders (MemoryZone arithmetic on node lengths)."
+        ),
+        rules=[(R_cc.r_sweep, Q), (R_cc.r_blocks, Q)],
+        level_text="partial: path counting and must-pass-through on the CFGs of lsweep.sequence / iterblocks / block.__getitem__; the two code tests sweep one x86 sample and never a delay-slot ISA",
+        level_note="Trusted: the fetch statement is the assignment from read_instruction; accumulators are found by the append of the loop variable. The graph-insertion clause (add_vertex / __cut_add_vertex) is not claimed.",
+        technique="def-use counting on loop paths + must-pass-through on statement CFGs",
+        trusted_base=["vstat.cfg", "vstat/rules/xfer.py"],
+        assumptions=[],
+    ),
+    "C19": dict(
+        title="Merging two maps over-approximates both",
+        explanation=(
+            "Decides that the join never drops a location or an alternative: (R-XFER) both loops of merge() store, on every path, "
+            "a value whose reaching-definition closure contains the loop's own value and the other map's read for that location (or "
+            "top); the second loop skips only on the membership test of the merged map; vec-based pointers are expanded with "
+            "their segment and displacement; vec.simplify drops an alternative only as a duplicate or by returning an undefined/"
+            "top value. Does NOT decide membership of evaluated results for all states (needs values)."
+        ),
+        rules=[(R_cc.r_merge, Q)],
+        level_text="partial: path enumeration of the four transfer loops and reaching-definition closure of the stored value; the single merge test joins two register-only maps",
+        level_note="Trusted: vstat/rules/xfer.py (sink / dedup-test recognition), vstat.cfg reaching definitions; value-level clauses (which alternatives evaluate to what) are out of reach.",
+        technique="path enumeration of transfer loops + reaching-definitions (def-use) closure",
+        trusted_base=["vstat.cfg", "vstat/rules/xfer.py"],
         assumptions=[],
     ),
 }
